@@ -28,6 +28,12 @@ class Crash(BaseException):
     pass
 
 
+def _which(path):
+    """which of a message's two files a path names"""
+    p = str(path)
+    return 'env' if p.endswith('.env') else 'meta' if p.endswith('.meta') else ''
+
+
 class Fx(object):
     """interposes on the file-system effects of slimta.diskstorage (module attributes, no source change)"""
     def __init__(self):
@@ -36,6 +42,7 @@ class Fx(object):
         self.listing_at = None
         self.lister = None
         self.nested = False
+        self.sink = None
         self.kinds = []
         self.real_mkstemp, self.real_aio_write, self.real_os = ds.mkstemp, ds.aio_write, ds.os
         fx = self
@@ -45,21 +52,24 @@ class Fx(object):
                 return getattr(fx.real_os, name)
 
             def rename(self, a, b):
-                fx.effect('rename')
+                fx.effect('rename', _which(b))
                 return fx.real_os.rename(a, b)
 
             def remove(self, p):
-                fx.effect('unlink')
+                fx.effect('unlink', _which(p))
                 return fx.real_os.remove(p)
         ds.os = OsProxy()
         ds.mkstemp = lambda *a, **kw: (fx.effect('mkstemp'), fx.real_mkstemp(*a, **kw))[1]
         ds.aio_write = lambda *a, **kw: (fx.effect('chunk'), fx.real_aio_write(*a, **kw))[1]
 
-    def effect(self, kind):
+    def effect(self, kind, which=''):
         if self.nested:
             return
         self.n += 1
         self.kinds.append(kind)
+        if self.sink is not None and not (self.target is not None and self.n == self.target):
+            # the file-system effect that is about to happen (the one a kill arrives before is not logged: it never happens)
+            self.sink.append({'t': 'fx', 'kind': kind, 'f': which})
         if self.listing_at is not None and self.n == self.listing_at and self.lister is not None:
             # somebody else lists the directories right now (the start-up scan of a queue that shares them, or of this very
             # process: Queue._load_all runs concurrently with enqueue()): a listing only reads
@@ -117,6 +127,7 @@ def run_history(ops, target, d, use_tmp=True, listing_at=None):
                 pass
         fx.lister = lister
     ev, ids, raw = [], {}, {}
+    fx.sink = ev
     crashed = None
     try:
         for op, a in ops:
@@ -186,10 +197,10 @@ def run_history(ops, target, d, use_tmp=True, listing_at=None):
     # disk reads take real time (aio): wait for every listed message to be attempted, giving up only after a
     # generous wall-clock allowance, so that a loaded machine cannot turn slowness into a verdict
     import time as _time
-    want = len([1 for g_ in rec['gets'] if g_.get('ok') and g_['rcpts']])
-    t_end = _time.time() + 20.0
+    wanted = set(g_['content'] for g_ in rec['gets'] if g_.get('ok') and g_['rcpts'])
+    t_end = _time.time() + 30.0
     k_ = 0
-    while k_ < 60 or (len([c for c in set(attempted) if attempted.count(c) >= 2]) < want and _time.time() < t_end):
+    while k_ < 60 or (any(attempted.count(c) < 2 for c in wanted) and _time.time() < t_end):
         k_ += 1
         gevent.sleep(0.002)
         vt.settle()
@@ -198,9 +209,13 @@ def run_history(ops, target, d, use_tmp=True, listing_at=None):
     q.kill()
     # content number == message number == small id order of writes (content k written as k-th write)
     c2id = {}
-    for e1, e2 in zip(ev, ev[1:]):
-        if e1['t'] == 'call' and e1['op'] == 'write' and e2['t'] == 'ret' and e2.get('ok'):
-            c2id[e1['a']['content']] = e2['v']
+    last_write = None
+    for e1 in ev:
+        if e1['t'] == 'call':
+            last_write = e1 if e1['op'] == 'write' else None
+        elif e1['t'] == 'ret' and last_write is not None and e1.get('ok'):
+            c2id[last_write['a']['content']] = e1['v']
+            last_write = None
     rec['attempted'] = sorted(set(c2id.get(c, 0) for c in attempted))
     rec['attempted2'] = sorted(set(c2id.get(c, 0) for c in attempted if attempted.count(c) >= 2))
     ev.append(rec)
